@@ -356,3 +356,107 @@ func runTObject(c *load.Ctx, r *report.RuleResult) {
 		}
 	}
 }
+
+func init() {
+	register(&Rule{ID: "T-list", Min: 20, Run: runTList,
+		Doc: "which validators a value position gets: a node with a types list is validated by the validators of the named types, plus a null-admitting validator iff nullable is present (at every level, also for a type whose own root is a reference); a node with type any (and no const) gets the any validator whatever the example's kind; otherwise arrays, objects and scalars get their own validator"})
+}
+
+func runTList(c *load.Ctx, r *report.RuleResult) {
+	e := newAbsNodeEnv(c)
+	build := c.Func(pkgValidator, "validatorListConstructor.buildList")
+	appendTypes := c.Func(pkgValidator, "validatorListConstructor.appendTypeValidators")
+	vlcT := namedType(c, pkgValidator, "validatorListConstructor")
+	if build == nil || appendTypes == nil || vlcT == nil {
+		r.Unk("anchor|validator.validatorListConstructor.buildList", "", "not found")
+		return
+	}
+	pos := c.Pos(build.Pos())
+	e.cfg.Intrinsics[appendTypes.String()] = func(in *pe.Interp, args []pe.Value) (pe.Value, bool) {
+		in.Effect("type-validators(" + strings.Trim(pe.Show(args[1]), "‹›") + ")")
+		return nil, true
+	}
+	for _, ctor := range []string{"newLiteralValidator", "newArrayValidator", "newObjectValidator", "newAnyNestedStructureValidator"} {
+		ctor := ctor
+		f := c.Func(pkgValidator, ctor)
+		if f == nil {
+			r.Unk("anchor|validator."+ctor, "", "not found")
+			return
+		}
+		e.cfg.Intrinsics[f.String()] = func(in *pe.Interp, args []pe.Value) (pe.Value, bool) {
+			in.Effect(ctor)
+			return pe.NewSym(ctor+"()", f.Signature.Results().At(0).Type()), true
+		}
+	}
+	outs := pe.ExploreFn(e.cfg, func(in *pe.Interp) pe.Value {
+		recv := symStruct(in, vlcT, "c", map[string]pe.Value{"list": pe.NilV{}, "addedTypeNames": pe.NilV{}})
+		return in.Call(build, []pe.Value{recv, pe.NewSym("node", e.nodeT)})
+	})
+	inds := []string{"has(TypesListConstraintType)", "has(NullableConstraintType)", "has(AnyConstraintType)", "has(ConstConstraintType)"}
+	kinds := []string{"TypeObject", "TypeArray", "TypeString", "TypeInteger", "TypeFloat", "TypeBoolean", "TypeNull"}
+	for mask := 0; mask < 16; mask++ {
+		total := map[string]string{}
+		for i, ind := range inds {
+			total[ind] = map[bool]string{true: "true", false: "false"}[mask&(1<<i) != 0]
+		}
+		for _, kind := range kinds {
+			key := "validators|" + valStr(total, inds...) + ",kind=" + strings.TrimPrefix(kind, "Type")
+			// expected constructor calls
+			var want []string
+			switch {
+			case total[inds[0]] == "true":
+				want = append(want, "type-validators(TypesList.typeNames)")
+				if total[inds[1]] == "true" {
+					want = append(want, "newLiteralValidator")
+				}
+			case total[inds[2]] == "true" && total[inds[3]] == "false":
+				want = []string{"newAnyNestedStructureValidator"}
+			case kind == "TypeArray":
+				want = []string{"newArrayValidator"}
+			case kind == "TypeObject":
+				want = []string{"newObjectValidator"}
+			default:
+				want = []string{"newLiteralValidator"}
+			}
+			matched := 0
+			for _, o := range outs {
+				val := o.ChoiceMap()
+				ok := true
+				for _, ind := range inds {
+					if v, asked := val[ind]; asked && v != total[ind] {
+						ok = false
+					}
+				}
+				if v, asked := val["node.type"]; asked && v != kind {
+					ok = false
+				}
+				if !ok {
+					continue
+				}
+				matched++
+				if o.Undecided != "" || o.Panicked {
+					r.Unk(key, pos, o.Exit())
+					continue
+				}
+				var got []string
+				for _, ef := range o.Effects {
+					if strings.HasPrefix(ef, "type-validators(") {
+						// the names must be the node's own types list
+						if strings.Contains(ef, "TypesList.") {
+							ef = "type-validators(TypesList.typeNames)"
+						}
+					}
+					got = append(got, ef)
+				}
+				if strings.Join(got, ";") != strings.Join(want, ";") {
+					r.Bad(key, pos, fmt.Sprintf("validators built: %v; the position requires %v", got, want))
+				} else {
+					r.OK(key, pos, strings.Join(got, ";"))
+				}
+			}
+			if matched == 0 {
+				r.Unk(key, pos, "no path for this valuation")
+			}
+		}
+	}
+}
